@@ -234,6 +234,7 @@ WORLD_VARIANTS = {
     "rules": rule_variants,
     "schemas": schema_variants,
     "specs": spec_variants,
+    "roots": lambda t: path_variants(t) if t[0] == "path" else iter(()),
 }
 
 
